@@ -21,6 +21,9 @@ Oracle (model independent, real objects only): before every call the receiver is
   involutions: reverse∘reverse, swap∘swap restore knots (to rounding) and control points (exactly),
                reparam back to the old interval restores the knots (to rounding);
   in-place calls return the receiver; valid arguments never raise;
+  objects whose directions were constructed from ONE BSplineBasis instance (`Surface(b, b, cp)`, or `b` and
+  `b.clone()`): a direction not named by `reparam` keeps its knots, every named one gets its own interval, and
+  the caller's basis objects are unchanged after the whole history;
   end-to-end: the composed parameter map of the whole history relates the final to the initial object.
 """
 from fractions import Fraction as F
@@ -45,14 +48,17 @@ RULE = ('histories of 1-6 calls over reverse/swap/reparam on random objects (par
         'unclamped or half-clamped non-periodic / periodic directions, orders 1-4, non-square nets); direction spellings 0/1/2, u/v/w, U/V/W, defaults, keywords, invalid '
         '(3, -1, x, uv, "", "0", W on a surface ...); reparam(*tuples) with fewer/equal/more tuples than directions, '
         'reparam(direction=..) with 0/1/2 tuples, tuples of wrong length; intervals: unit, negative, huge (to 2^41), small '
-        '(to 2^-10), shifted with |s|/(e-s) up to 2^10, end <= start.  distinct = distinct protocol lines; non-trivial = at '
+        '(to 2^-10), shifted with |s|/(e-s) up to 2^10, end <= start; surfaces/volumes constructed from one shared basis instance '
+        '(or a basis and its clone) in 2-3 directions followed by direction-specific reparam (after swap / reverse).  distinct = distinct protocol lines; non-trivial = at '
         'least one call of the history succeeded and changed or re-labelled the parametrisation.')
 REQUIRED_TAGS = ['op=reverse', 'op=swap', 'op=reparam', 'pardim=1', 'pardim=2', 'pardim=3', 'rational', 'periodic-dir',
                  'spell=int', 'spell=lower', 'spell=upper', 'spell=invalid', 'spell=default', 'spell=keyword',
                  'conv=A', 'conv=A-short', 'conv=A-long', 'conv=A-none', 'conv=B', 'conv=B-noargs',
                  'interval=negative', 'interval=huge', 'interval=small', 'interval=invalid', 'interval=bad-arity',
                  'err:ValueError', 'partial-mutation', 'reverse-periodic', 'reverse-nonopen', 'nonopen-dir', 'swap-curve', 'swap-same-dir',
-                 'len>=4']
+                 'len>=4', 'shared-basis', 'shared-basis:pardim=2', 'shared-basis:pardim=3', 'shared-basis:rational',
+                 'shared-basis:polynomial', 'shared-basis:same-instance', 'shared-basis:clone', 'shared-basis:reparam-direction',
+                 'shared-basis:reparam-per-direction', 'shared-basis:reparam-after-swap', 'shared-basis:reparam-after-reverse']
 
 CLASS_REVERSE_PERIODIC = 'reverse-periodic-flip-only'
 CLASS_SWAP_CURVE = 'swap-curve-returns-none'
@@ -381,6 +387,46 @@ def generate(rng, tier):
             s0 = rng.choice([0.0, 0.0, w * 16])
             specs.append({'family': 'tiny-interval', 'obj': o,
                           'ops': [{'op': 'reparam', 'args': [[s0, s0 + w]], 'direction': rng.randrange(pardim)}]})
+    # objects whose directions were constructed from ONE basis instance (or a basis and its clone): every direction
+    # must still be re-parametrised on its own
+    for i in range(36 if tier == 'quick' else 400):
+        pardim = 2 + i % 2
+        share = rng.choice([[0, 0]] if pardim == 2 else [[0, 0, 0], [0, 1, 0], [0, 0, 1], [1, 0, 0]])
+        groups = {}
+        for g in share:
+            if g not in groups:
+                groups[g] = gen.any_basis(rng, pmax=3, periodic_prob=0.25, nonopen_prob=0.25, n_interior=rng.randint(0, 2))
+        bases = [dict(groups[g], knots=list(groups[g]['knots'])) for g in share]
+        rational = bool(i % 4 >= 2)
+        dim = 3 if pardim == 3 else rng.choice([2, 3])
+        o = {'bases': bases, 'cps': gen.rand_cps(rng, [gen.basis_info(b)['n'] for b in bases], dim + (1 if rational else 0), rational),
+             'rational': rational}
+        shared_dirs = [d for d in range(pardim) if share.count(share[d]) > 1]
+        ops = []
+        pre = [None, 'swap', 'reverse', 'swap', None, 'reverse'][i % 6]
+        if pre == 'swap':
+            d1 = rng.choice(shared_dirs)
+            d2 = rng.choice([d for d in range(pardim) if d != d1])
+            ops.append({'op': 'swap', 'dirs': [_tok(rng, pardim, d1), _tok(rng, pardim, d2)]})
+        elif pre == 'reverse':
+            ops.append({'op': 'reverse', 'dir': _tok(rng, pardim, rng.choice(shared_dirs if i % 12 < 6 else list(range(pardim))))})
+        kind = rng.choice(['plain', 'negative', 'huge', 'small', 'shifted'])
+        if i % 3 != 2:
+            d = rng.choice(list(range(pardim)) if pre == 'swap' else shared_dirs)
+            s0, e0, _k = _interval(rng, kind)
+            ops.append({'op': 'reparam', 'args': [[s0, e0]], 'direction': _tok(rng, pardim, d)})
+        else:
+            args = []
+            for _d in range(pardim):
+                s0, e0, _k = _interval(rng, rng.choice(['plain', 'negative', 'small', 'shifted']))
+                args.append([s0 + 0.5 * _d, e0 + 1.25 * _d + 0.5 * _d])
+            ops.append({'op': 'reparam', 'args': args})
+        for _ in range(rng.randint(0, 2)):
+            ops.append(_rand_op(rng, pardim, invalid=0.0))
+        spec = {'family': 'shared-basis', 'obj': o, 'ops': ops, 'share': share}
+        if i % 5 == 4:
+            spec['share_clone'] = True
+        specs.append(spec)
     for _ in range(4 if tier == 'quick' else 40):
         o = _rand_obj(rng, 1, periodic_prob=0.0)
         specs.append({'family': 'curve-swap', 'obj': o, 'ops': [{'op': 'swap', 'dirs': rng.choice([[], [0, 1], ['u', 'v'], ['x', 9]])}]})
@@ -431,8 +477,32 @@ def _call(obj, op):
     return obj.reparam(*args)
 
 
+def _mk_object(sp, s, keep=None):
+    """Real object of a spec.  `s['share']` (optional) = one group id per direction: directions of the same
+    group are constructed from ONE BSplineBasis instance (`Surface(b, b, cp)`), or — `s['share_clone']` — from
+    `b` and `b.clone()`.  The caller's basis objects are appended to `keep` (they must not be touched by any
+    operation on the object)."""
+    o = s['obj']
+    share = s.get('share')
+    if not share:
+        return gen.mk_object(sp, o)
+    first = {}
+    bases = []
+    for d, g in enumerate(share):
+        if g not in first:
+            first[g] = gen.mk_basis(sp, o['bases'][d])
+            bases.append(first[g])
+        else:
+            bases.append(first[g].clone() if s.get('share_clone') else first[g])
+    if keep is not None:
+        keep.extend(bases)
+    cps = np.array(o['cps'], dtype=float)
+    cls = {1: sp.Curve, 2: sp.Surface, 3: sp.Volume}[len(bases)]
+    return cls(*bases, cps, o['rational'], raw=True)
+
+
 def run_impl(sp, s):
-    obj = gen.mk_object(sp, s['obj'])
+    obj = _mk_object(sp, s)
     out = []
     for op in s['ops']:
         try:
@@ -691,7 +761,8 @@ def _same_state(a, b, knot_tol=1e-12):
 
 def oracle(sp, s):
     fails = []
-    obj = gen.mk_object(sp, s['obj'])
+    user_bases = []
+    obj = _mk_object(sp, s, keep=user_bases)
     orig = obj.clone()
     pd = obj.pardim
     # composed map: current direction j shows original direction track[j][0] with t_cur = al*t_orig + be
@@ -810,6 +881,14 @@ def oracle(sp, s):
         if step_fail:
             track_ok = False
         fails += step_fail
+    # ---- the basis objects the caller constructed the object from are the caller's: no operation may touch them
+    for d, ub in enumerate(user_bases):
+        want = s['obj']['bases'][d]
+        kn = [float(x) for x in ub.knots]
+        if kn != [float(x) for x in want['knots']] or int(ub.order) != want['order'] or int(ub.periodic) != want['periodic']:
+            fails.append("whole history: the caller's basis object passed for direction %d was modified (knots now %s...)"
+                         % (d, ', '.join('%g' % x for x in kn[:4])))
+            break
     # ---- end-to-end: the composed parameter map relates the final to the initial object
     if track_ok and not fails:
         P_orig = [_interior(b, 2) for b in orig.bases]
@@ -892,6 +971,21 @@ def tags(s, res):
         out.add('nonopen-dir')
     if len(s['ops']) >= 4:
         out.add('len>=4')
+    if s.get('share'):
+        out.add('shared-basis')
+        out.add('shared-basis:pardim=%d' % pd)
+        out.add('shared-basis:rational' if o['rational'] else 'shared-basis:polynomial')
+        out.add('shared-basis:clone' if s.get('share_clone') else 'shared-basis:same-instance')
+        seen = set()
+        for op in s['ops']:
+            if op['op'] == 'reparam':
+                out.add('shared-basis:reparam-direction' if 'direction' in op else 'shared-basis:reparam-per-direction')
+                if 'swap' in seen:
+                    out.add('shared-basis:reparam-after-swap')
+                if 'reverse' in seen:
+                    out.add('shared-basis:reparam-after-reverse')
+                break
+            seen.add(op['op'])
     for op in s['ops']:
         k = op['op']
         out.add('op=' + k)
